@@ -7,7 +7,7 @@ CONSTANTS
   FileSeq <- Seq3
   MaxStmts = 3
   GenKinds = {"use", "forward", "import", "loadcss"}
-  GenSpellings = {"plain"}
+  GenSpellings = {"plain", "ext"}
   DevChoices <- DevIdeal
   MaxFaultAt = 9
 INVARIANTS UrlsResolve FaultReported NoErrWithoutFault LockDiscipline DepthBound LoopOnlyOnCycle NeverOverflow InitOnce OkOnlyAcyclic Emit
